@@ -168,6 +168,54 @@ def global_snapshot():
     }
 
 
+_GRADER_CLASSES = [ObjectWithSchema, AbstractGrader, ItemGrader, StringGrader, FormulaGrader, NumericalGrader, MatrixGrader,
+                   SingleListGrader, ListGrader, IntervalGrader, SumGrader]
+
+
+def save_globals():
+    """the real objects behind global_snapshot(), so that a detected leak can be undone before the next history"""
+    saved = {
+        'negative_powers': MathArray._negative_powers,
+        'geterr': dict(np.geterr()),
+        'errcall': np.geterrcall(),
+        'dicts': [(d, copy.copy(d)) for d in (MF.DEFAULT_VARIABLES, MF.DEFAULT_FUNCTIONS, MF.DEFAULT_SUFFIXES, MF.METRIC_SUFFIXES,
+                                              MathMixin.default_variables, MathMixin.default_functions, MathMixin.default_suffixes)],
+        'classattrs': [(c, {k: v for k, v in vars(c).items()
+                            if k in ('default_values', 'log_created', 'inferring_answers', 'default_variables', 'default_functions',
+                                     'default_suffixes', 'default_comparer')}) for c in _GRADER_CLASSES],
+    }
+    return saved
+
+
+def restore_globals(saved):
+    MathArray._negative_powers = saved['negative_powers']
+    np.seterr(**saved['geterr'])
+    np.seterrcall(saved['errcall'])
+    for d, cp in saved['dicts']:
+        d.clear()
+        d.update(cp)
+    for c, attrs in saved['classattrs']:
+        for k in ('default_values', 'log_created', 'inferring_answers', 'default_variables', 'default_functions',
+                  'default_suffixes', 'default_comparer'):
+            if k in attrs:
+                setattr(c, k, attrs[k])
+            elif k in vars(c):
+                delattr(c, k)
+
+
+PRISTINE = None
+SAVED = None
+
+
+def pristine():
+    """taken once per worker process, when this module is first used (before any history has run)"""
+    global PRISTINE, SAVED
+    if PRISTINE is None:
+        SAVED = save_globals()
+        PRISTINE = global_snapshot()
+    return PRISTINE
+
+
 def diff_snapshot(a, b):
     return [k for k in a if a[k] != b[k]]
 
@@ -252,7 +300,7 @@ class GraderHistory(BFSFamily):
         else:
             self.spec = KINDS[self.kindname]
             self.cls = self.spec['cls']
-        self.pristine = global_snapshot()
+        self.pristine = pristine()
         self.fresh = {}
         self.valid = {}
 
@@ -406,8 +454,8 @@ class GraderHistory(BFSFamily):
         snap = global_snapshot()
         d = diff_snapshot(self.pristine, snap)
         if d:
-            # restore what we can so that later histories in this worker start clean
-            MathArray._negative_powers = self.pristine['negative_powers']
+            # undo the leak so that later histories in this worker start clean
+            restore_globals(SAVED)
             return viol('process-wide-setting-changed:' + ','.join(d), 'process-wide settings changed: %r' % d,
                         {k: repr(self.pristine[k])[:200] for k in d}, {k: repr(snap[k])[:200] for k in d})
         return None
@@ -471,6 +519,7 @@ class Scopes(Family):
 
 
 def families(tier):
+    pristine()
     fams = []
     debug_opts = (False,) if tier == 'quick' else (False, True)
     for kind in KINDS:
